@@ -4,6 +4,7 @@ import Driver.Wr
 import Driver.Pl
 import Driver.Cl
 import Driver.Cd
+import Driver.Dr
 /-! `driver <suite>`: reads a transcript on stdin, prints the model's `obs` line for every `op` line. -/
 
 partial def loopSrv (h : IO.FS.Stream) (out : IO.FS.Stream) (st : Driver.Srv.St) : IO Unit := do
@@ -42,6 +43,15 @@ partial def loopCl (h : IO.FS.Stream) (out : IO.FS.Stream) (st : Driver.Cl.St ×
   | none => pure ()
   loopCl h out st'
 
+partial def loopDr (h : IO.FS.Stream) (out : IO.FS.Stream) (st : Driver.Dr.St) : IO Unit := do
+  let line ← h.getLine
+  if line.isEmpty then return ()
+  let (st', o) := Driver.Dr.handle st line
+  match o with
+  | some l => out.putStrLn l
+  | none => pure ()
+  loopDr h out st'
+
 partial def loopStateless (h : IO.FS.Stream) (out : IO.FS.Stream) (f : String → Option String) : IO Unit := do
   let line ← h.getLine
   if line.isEmpty then return ()
@@ -58,6 +68,7 @@ def main (args : List String) : IO UInt32 := do
   | ["reader"] => loopRd stdin stdout {}; return 0
   | ["client"] => loopCl stdin stdout ({}, []); return 0
   | ["pool"] => loopPl stdin stdout {}; return 0
+  | ["direct"] => loopDr stdin stdout {}; return 0
   | ["codec"] => loopStateless stdin stdout Driver.Cd.handle; return 0
   | ["writer"] => loopStateless stdin stdout Driver.Wr.handle; return 0
   | _ => IO.eprintln "usage: driver <suite>"; return 2
